@@ -215,16 +215,20 @@ class Sched:
         self.live.append(t)
         proc.tasks.append(t)
 
+        box = [fn]
+        del fn
+
         def runner():
             t.ident = REAL_GET_IDENT()
             t.baton.acquire()
             self.by_ident[t.ident] = t
+            f = box.pop()       # the only reference to the task body: dropped before the baton is handed over
             try:
                 if self.on_task_start is not None and not self.teardown:
                     self.on_task_start(t)
                 if t.killed or self.teardown:
                     raise SimKilled()
-                fn()
+                f()
             except SimKilled:
                 pass
             except SystemExit:
@@ -236,6 +240,7 @@ class Sched:
                                              _innermost_repo_func(e.__traceback__)))
             finally:
                 sys.settrace(None)
+                f = None
                 t.state = DONE
                 self.by_ident.pop(t.ident, None)
                 try:
